@@ -24,10 +24,10 @@ def sh(cmd, cwd=None, env=None, timeout=None, stdin=None):
         return 124, out + '\n[timeout after %ss]' % timeout, time.time() - t0
 
 @contextlib.contextmanager
-def flock(name):
+def flock(name, shared=False):
     ensure_dir(BUILD)
-    f = open(os.path.join(BUILD, name + '.lock'), 'w')
-    fcntl.flock(f, fcntl.LOCK_EX)
+    f = open(os.path.join(BUILD, name + '.lock'), 'a')
+    fcntl.flock(f, fcntl.LOCK_SH if shared else fcntl.LOCK_EX)
     try:
         yield
     finally:
